@@ -56,6 +56,7 @@ def derived_schema(ver):
  <xs:simpleType name="smaller"><xs:restriction base="small"><xs:maxExclusive value="10"/><xs:pattern value="[0-9]"/></xs:restriction></xs:simpleType>
  <xs:simpleType name="word"><xs:restriction base="xs:token"><xs:minLength value="2"/><xs:maxLength value="4"/></xs:restriction></xs:simpleType>
  <xs:simpleType name="en"><xs:restriction base="word"><xs:enumeration value="ab"/><xs:enumeration value="abcd"/></xs:restriction></xs:simpleType>
+ <xs:simpleType name="ien"><xs:restriction base="xs:integer"><xs:enumeration value="1"/><xs:enumeration value="12"/></xs:restriction></xs:simpleType>
  <xs:simpleType name="ilist"><xs:list itemType="small"/></xs:simpleType>
  <xs:simpleType name="ilist2"><xs:restriction base="ilist"><xs:length value="2"/></xs:restriction></xs:simpleType>
  <xs:simpleType name="u"><xs:union memberTypes="small xs:boolean word"/></xs:simpleType>
@@ -67,11 +68,19 @@ def derived_schema(ver):
  <xs:simpleType name="money"><xs:restriction base="xs:decimal"><xs:totalDigits value="4"/><xs:fractionDigits value="2"/></xs:restriction></xs:simpleType>
  <xs:element name="small" type="small"/><xs:element name="smaller" type="smaller"/><xs:element name="word" type="word"/><xs:element name="en" type="en"/>
  <xs:element name="ilist" type="ilist"/><xs:element name="ilist2" type="ilist2"/><xs:element name="u" type="u"/><xs:element name="money" type="money"/>
- <xs:element name="durs" type="durs"/><xs:element name="stamps" type="stamps"/>
+ <xs:element name="durs" type="durs"/><xs:element name="stamps" type="stamps"/><xs:element name="ien" type="ien"/>
  <xs:element name="twoWords" type="twoWords"/><xs:element name="lead" type="lead"/></xs:schema>''')
 
 
 def isint(t): return re.fullmatch(r'[+-]?[0-9]+', t) is not None
+
+
+def _us(t, pat):
+    """restriction by pattern of union(xs:int, xs:string): the first member that accepts the text decides, and the pattern applies to the text as
+    normalised by that member (xs:int collapses, xs:string preserves); a digit string outside the int range is a string"""
+    c = t.strip(' \t\n\r')
+    if isint(c) and -2**31 <= int(c) < 2**31: return re.fullmatch(pat, c) is not None
+    return re.fullmatch(pat, t) is not None
 
 
 REF = {
@@ -79,13 +88,14 @@ REF = {
     'smaller': lambda t: re.fullmatch(r'[0-9]', t) is not None and 0 <= int(t) < 10,
     'word': lambda t: 2 <= len(t) <= 4,
     'en': lambda t: t in ('ab', 'abcd'),
+    'ien': lambda t: isint(t) and int(t) in (1, 12),
     'ilist': lambda t: all(REF['small'](x) for x in t.split(' ')) if t else True,
     'ilist2': lambda t: len(t.split(' ')) == 2 and all(REF['small'](x) for x in t.split(' ')) if t else False,
     'u': lambda t: REF['small'](t) or t in ('true', 'false', '1', '0') or REF['word'](t),
     # restriction of a union by pattern: the pattern applies to the text as normalised by the member that validates it
     # (xs:int collapses, xs:string preserves)
-    'twoWords': lambda t: (isint(t.strip(' \t\n\r')) and re.fullmatch(r'[0-9]+', re.sub(r'[ \t\n\r]+', ' ', t).strip(' ')) is not None and -2**31 <= int(t) < 2**31) or (not isint(t.strip(' \t\n\r')) and re.fullmatch(r'[a-z]+ [a-z]+', t) is not None),
-    'lead': lambda t: (isint(t.strip(' \t\n\r')) and re.fullmatch(r'[0-9]+', t.strip(' \t\n\r')) is not None and -2**31 <= int(t) < 2**31) or (not isint(t.strip(' \t\n\r')) and re.fullmatch(r'  [a-z]+', t) is not None),
+    'twoWords': lambda t: _us(t, r'[a-z]+ [a-z]+|[0-9]+'),
+    'lead': lambda t: _us(t, r'  [a-z]+|[0-9]+'),
     'durs': lambda t: all(re.fullmatch(r'-?P(?=.)([0-9]+Y)?([0-9]+M)?([0-9]+D)?(T(?=.)([0-9]+H)?([0-9]+M)?([0-9]+(\.[0-9]+)?S)?)?', x) is not None for x in t.split(' ')) if t else True,
     'stamps': lambda t: all(re.fullmatch(r'-?[0-9]{4}-[0-9]{2}-[0-9]{2}T[0-9]{2}:[0-9]{2}:[0-9]{2}(\.[0-9]+)?(Z|[+-][0-9]{2}:[0-9]{2})?', x) is not None for x in t.split(' ')) if t else True,
     'money': lambda t: re.fullmatch(r'[+-]?([0-9]+(\.[0-9]*)?|\.[0-9]+)', t) is not None and sum(digits(t)) <= 4 and digits(t)[1] <= 2,
@@ -93,13 +103,13 @@ REF = {
 UNION_DECODE = lambda t: int(t) if REF['small'](t) else (t in ('true', '1')) if t in ('true', 'false', '1', '0') else t
 DVALUES = ['P1Y0M PT60S', 'P13M  P1DT24H', 'PT1.50S', 'P1Y', '2020-01-01T24:00:00 2020-01-01T10:00:00+00:00', '2020-01-01T00:00:00.120', '2020-01-01T00:00:00Z']
 VALUES = ['ab cd', 'ab  cd', ' ab cd', 'ab cd ', '  ab', ' ab', '12', ' 12 ', 'ab', '0', '5', '9', '10', '99', '100', '101', '-1', '+7', '07', 'ab', 'a', 'abc', 'abcd', 'abcde', 'true', 'false', '1', '', '1 2', '1 2 3', '100 0', '101 1', 'x y',
-          '12.34', '1.234', '123.4', '12345', '0.10', '00012.30', '.5', '1e1', 'a b']
+          '12.34', '1.234', '123.4', '12345', '0.10', '00012.30', '.5', '1e1', 'a b', '9' * 400, '012', '-' + '9' * 330]
 
 
 def eval_derived(args):
     ver, name, v = args
     s = _S.setdefault(ver, derived_schema(ver))
-    t = v if name not in ('word', 'en', 'ilist', 'ilist2', 'u', 'small', 'smaller', 'money', 'durs', 'stamps') else re.sub(r' +', ' ', re.sub(r'[\t\n\r]', ' ', v)).strip(' ')
+    t = v if name not in ('word', 'en', 'ien', 'ilist', 'ilist2', 'u', 'small', 'smaller', 'money', 'durs', 'stamps') else re.sub(r' +', ' ', re.sub(r'[\t\n\r]', ' ', v)).strip(' ')
     exp = REF[name](t)
     doc = f'<{name}>{v}</{name}>'
     try: got = s.is_valid(doc)
